@@ -250,10 +250,16 @@ Spec == Init /\ [][Next]_vars
 \* ---------------------------------------------------------------- properties
 InitVal == IF InitLoose # None THEN InitLoose ELSE InitPacked
 
+\* what a reader sees once every process has finished (the replay appends this read as process 9, so that
+\* a successful update that left no trace is noticed even when no scheduled read followed it)
+FinalVal == IF path = 0 THEN packed ELSE IF content[path] = Empty THEN packed ELSE content[path]
+FinalRead == << [p |-> 9, ev |-> "inv", op |-> "read", old |-> "", new |-> "", val |-> ""],
+               [p |-> 9, ev |-> "res", op |-> "read", old |-> "", new |-> "", val |-> FinalVal] >>
+ObsF == obs \o FinalRead
 \* the property-level requirement (C16) on the observable history
-LinearizableWhenDone == AllDone => Linearizable(OpsOf(obs), InitVal)
+LinearizableWhenDone == AllDone => Linearizable(OpsOf(ObsF), InitVal)
 \* weaker: the updates alone are consistent (reads unconstrained)
-UpdatesLinearizableWhenDone == AllDone => LinearizableWeak(OpsOf(obs), InitVal)
+UpdatesLinearizableWhenDone == AllDone => LinearizableWeak(OpsOf(ObsF), InitVal)
 
 \* structural invariants of the model
 TypeOK == /\ path \in 0..nIno /\ Len(flock) = nIno
@@ -265,6 +271,6 @@ NoDeadlock == AllDone \/ ENABLED Next
 
 \* every terminal state prints one representative schedule with the spec's own verdict
 EmitTerminal == (EmitSched /\ AllDone) =>
-   PrintT(ToJson([sched |-> sched, lin |-> Linearizable(OpsOf(obs), InitVal),
-                  weak |-> LinearizableWeak(OpsOf(obs), InitVal), obs |-> obs]))
+   PrintT(ToJson([sched |-> sched, lin |-> Linearizable(OpsOf(ObsF), InitVal),
+                  weak |-> LinearizableWeak(OpsOf(ObsF), InitVal), obs |-> obs]))
 =============================================================================
